@@ -345,3 +345,55 @@ func listenTrial(r *vh.Run, bin string, i int) {
 		}
 	}
 }
+
+// convertedOffTrial: the referrers switch on a directory that a registry with the API ON has written (its index.json is
+// marked as converted).  Turned OFF, a store that cannot write serves the directory like before (C14 decides that); a
+// writable directory store may refuse to work on it - "this repo should not be writable" says the code - but whatever
+// it does, it does it consistently: a push that is acknowledged with 201 is readable afterwards (now and after a
+// restart), a push that is refused leaves nothing behind, and the same read gets the same answer twice.
+func convertedOffTrial(r *vh.Run, i int) {
+	root := r.TempDir("c19o")
+	defer vh.RemoveAll(root)
+	wit := map[string]any{"trial": i}
+	pc := vh.Conf(vh.Dir, root, vh.Neutral)
+	psrv := vh.New(pc)
+	cfg := []byte(fmt.Sprintf(`{"o":%d}`, i))
+	cb := &vh.Blob{Name: "cfg", B: cfg, D: vh.DigestOf("sha256", cfg)}
+	vh.Do(psrv, vh.Req{Method: "POST", URL: "/v2/o/blobs/uploads/?digest=" + cb.D, Body: cfg})
+	v1 := vh.MkImage("v1", "sha256", vh.MTImage, cb, vh.MTConfig, nil, "", "", map[string]string{"n": "v1", "i": fmt.Sprint(i)})
+	v2 := vh.MkImage("v2", "sha256", vh.MTImage, cb, vh.MTConfig, nil, "", "", map[string]string{"n": "v2", "i": fmt.Sprint(i)})
+	if st := vh.Do(psrv, vh.Req{Method: "PUT", URL: "/v2/o/manifests/v1", H: map[string]string{"Content-Type": v1.MT}, Body: v1.Raw}).Status; st != 201 {
+		r.Inconclusive("convertedOffTrial: setup refused")
+		return
+	}
+	_ = psrv.Close()
+	c := vh.Conf(vh.Dir, root, vh.Neutral)
+	c.API.Referrer.Enabled = vh.BP(false)
+	srv := vh.New(c)
+	head := func(h http.Handler, tag string) int {
+		return vh.Do(h, vh.Req{Method: "HEAD", URL: "/v2/o/manifests/" + tag, H: map[string]string{"Accept": vh.AcceptAll}}).Status
+	}
+	r.Count("converted_off_trials", 1)
+	r.Distinct("cells", "converted-off")
+	a, b := head(srv, "v1"), head(srv, "v1")
+	wit["v1_first"], wit["v1_second"] = a, b
+	if a != b {
+		r.Violation("switch:referrers-off-on-converted-directory:read-flaps", fmt.Sprintf("directory written with the referrers API on, reopened with it off: HEAD of tag v1 answers %d, the same request again %d", a, b), wit)
+		_ = srv.Close()
+		return
+	}
+	ps := vh.Do(srv, vh.Req{Method: "PUT", URL: "/v2/o/manifests/v2", H: map[string]string{"Content-Type": v2.MT}, Body: v2.Raw}).Status
+	g := head(srv, "v2")
+	tl := string(vh.Do(srv, vh.Req{Method: "GET", URL: "/v2/o/tags/list"}).Body)
+	_ = srv.Close()
+	srv2 := vh.New(c)
+	g2 := head(srv2, "v2")
+	_ = srv2.Close()
+	wit["put_v2"], wit["head_v2"], wit["head_v2_after_restart"], wit["tags"] = ps, g, g2, tl
+	switch {
+	case ps == 201 && (g != 200 || g2 != 200 || !strings.Contains(tl, `"v2"`)):
+		r.Violation("switch:referrers-off-on-converted-directory:acknowledged-push-unreadable", fmt.Sprintf("directory written with the referrers API on, reopened (writable) with it off: PUT of tag v2 is acknowledged with 201; HEAD of the tag answers %d, after a restart %d, the listing is %s", g, g2, strings.TrimSpace(tl)), wit)
+	case ps != 201 && (g == 200 || g2 == 200):
+		r.Violation("switch:referrers-off-on-converted-directory:refused-push-took-effect", fmt.Sprintf("PUT of tag v2 answered %d, yet the tag resolves (%d, after a restart %d)", ps, g, g2), wit)
+	}
+}
